@@ -4,10 +4,11 @@
    buffers with the window bookkeeping preserved (on top of the core frame theorem).  Progress
    and the stream-end clauses are decided per explored run - and PROVED for streams of stored blocks
    (raw, zlib with the right trailer, zlib with the trailer ignored) under every sequence of calls that do
-   not ask for Finish or a full flush (C13_inflate_on_stored_streams_partial): every call returns, the codes
-   are MZ_OK / MZ_STREAM_END / MZ_BUF_ERROR (the last only for a call without input while nothing is
-   pending), the bytes handed out are always a prefix of the plaintext, and MZ_STREAM_END is reported only
-   when all of it has been handed out.  Under the wrapper the decoder runs on the 32 KiB ring at a moving
+   not ask for Finish or a full flush (C13_inflate_on_stored_streams_partial; the trailer may hold ANY value):
+   every call returns, the codes are MZ_OK / MZ_STREAM_END / MZ_BUF_ERROR (only for a call without input
+   while nothing is pending) / MZ_DATA_ERROR (only for a checked trailer that is wrong; it then sticks), the
+   bytes handed out are always a prefix of the plaintext, and MZ_STREAM_END is reported only when all of it
+   has been handed out and the trailer is right.  Under the wrapper the decoder runs on the 32 KiB ring at a moving
    offset; the proof composes the decoder invariant with the ring bookkeeping (dict_ofs, dict_avail). *)
 From Coq Require Import NArith ZArith List Bool.
 From MZ.lib Require Import Mach.
@@ -58,20 +59,22 @@ Proof.
 Qed.
 
 Theorem C13_inflate_on_stored_streams_partial :
-  forall fmt cmf flg chunks last extra (calls : list (list N * N * N)) later,
-  cmf < 256 -> flg < 256 -> valid_header (Z.of_N cmf) (Z.of_N flg) = true ->
+  forall fmt cmf flg A chunks last extra (calls : list (list N * N * N)) later,
+  cmf < 256 -> flg < 256 -> valid_header (Z.of_N cmf) (Z.of_N flg) = true -> A < 2 ^ 32 ->
   chunks_ok chunks -> bytes_ok last -> N.of_nat (length last) <= 65535 ->
   let data := concat chunks ++ last in
   let zl := zl_of fmt in
-  let stream := (if zl then [cmf; flg] else []) ++ stored_stream chunks last ++ (if zl then be32 (adler32 1 data) else []) in
+  let stream := (if zl then [cmf; flg] else []) ++ stored_stream chunks last ++ (if zl then be32 A else []) in
   let offered := concat (map (fun it : list N * N * N => fst (fst it)) calls) in
   Forall (fun it : list N * N * N => snd it <> FL_FINISH /\ snd it <> FL_FULL) calls ->
   offered ++ later = stream ++ extra ->
   N.of_nat (length offered) < 2 ^ 57 -> N.of_nat (length data) < 2 ^ 40 ->
   exists codes acc s',
     sfeed (is_new fmt) [] calls [] [] = Ret (codes, acc, s') /\
-    Forall code_ok codes /\ acc = firstn (length acc) data /\ (In MZ_STREAM_END codes -> acc = data).
-Proof. exact inflate_on_stored_streams. Qed.
+    Forall code_ok codes /\ acc = firstn (length acc) data /\
+    (In MZ_STREAM_END codes -> acc = data /\ (fmt = FZlib -> adler32 1 data = A)) /\
+    (In MZ_ERR_DATA codes -> fmt = FZlib /\ adler32 1 data <> A).
+Proof. exact inflate_on_stored_streams_any_trailer. Qed.
 
 (* non-vacuity: a zlib stream of two stored blocks through inflate() with 3 bytes of input and 2 bytes of
    output space per call, then calls without input: the codes end with MZ_STREAM_END and everything is out *)
